@@ -234,10 +234,16 @@ def observe(case: dict, cat: dict) -> dict:
     """In-process observation of the three decision sites, in an element-dependent order (statistic is cached, the filter
     context object is shared)."""
     st = _setup(cat)
-    schema = build_schema(case, cat)
     lab = st["labels"]
     out: dict = {"door": case["door"], "base": case["base"], "incl": case["incl"], "excl": case["excl"], "vecs": [], "stats": [],
                  "pairs": [], "foreign": 0, "smok": False, "note": ""}
+    try:
+        schema = build_schema(case, cat)
+    except Exception as exc:
+        # the real API refused a filter set the specification considers well-formed: nothing is offered for testing
+        out["vecs"].append({"site": "iter", "exact": True, "vec": [0] * len(lab)})
+        out["note"] = "building the filter set raised %s: %s" % (type(exc).__name__, exc)
+        return out
     order = ["iter", "stat", "sm"]
     random.Random(_element_seed(case) + 1).shuffle(order)
     got: dict = {}
